@@ -183,7 +183,54 @@ def h0 (name : String) : Handler := fun _ args observed =>
     pure (classify observed model (oracle want observed) (nt := name != "trivial") [name, repr, "admissible"])
   | _ => none
 
+/-! ### `gen_complete_big`: `complete(n)` at a large order, observed in complement form -/
+
+/-- `0..n` minus the members of an ascending row, minus `u` itself -/
+def missingIn (n u : Nat) : Nat → Nat → List Nat → List Nat
+  | 0, _, _ => []
+  | fuel + 1, v, row =>
+    if v ≥ n then [] else
+    match row with
+    | [] => if v = u then missingIn n u fuel (v + 1) [] else v :: missingIn n u fuel (v + 1) []
+    | r :: rs =>
+      if r < v then missingIn n u fuel v rs
+      else if r = v then missingIn n u fuel (v + 1) rs
+      else if v = u then missingIn n u fuel (v + 1) (r :: rs)
+      else v :: missingIn n u fuel (v + 1) (r :: rs)
+
+/-- the compact observation of a model adjacency list (what `compact` in `c14.rs` computes) -/
+def compactAL (d : AdjList) : V :=
+  let n := d.order
+  let missing := d.rows.zipIdx.flatMap (fun p => (missingIn n p.2 (n + p.1.length + 1) 0 p.1).map (fun v => (p.2, v)))
+  let bad := d.arcs.filter (fun a => a.1 == a.2 || a.2 ≥ n)
+  .l [V.ofNat n, V.ofBool true, V.ofNat d.size, V.ofNat missing.length, V.ofPairs (missing.take 20),
+      V.ofNat bad.length, V.ofPairs (bad.take 20)]
+
+def hCompleteBig : Handler := fun t args observed =>
+  match args with
+  | [repr, n, tmin] => do
+    let repr ← V.atom? repr
+    let n ← V.nat? n
+    let tmin ← V.nat? tmin
+    if !(repr == "al" || repr == "am" || repr == "mx" || repr == "el") then none
+    let want : List V := if n = 0 then panicV else
+      [.l [V.ofNat n, V.ofBool true, V.ofNat (n * (n - 1)), V.ofNat 0, .l [], V.ofNat 0, .l []]]
+    if t < tmin then
+      pure (classify observed [V.a "skip"] none (nt := false) ["complete-big", repr, "skipped"])
+    else
+      -- the threaded list model is replayed up to order 2100 (memory); beyond that, and for the other
+      -- representations (whose list models are quadratic at this size), `C14.statement_holds` is used:
+      -- the model's output is the compact form of complete(n)
+      let model : List V :=
+        if repr == "al" && n ≤ 2100 then (match AL.complete n t with | none => panicV | some d => [compactAL d]) else want
+      let propFail := if observed == want then none else
+        some s!"complete({n}) in complement form should be {want}"
+      pure (classify observed model propFail (nt := true)
+        ["complete-big", repr, if repr == "al" then chunkTag n t else "sequential", if n ≤ 2100 && repr == "al" then "model-replayed" else "model-by-theorem"])
+  | _ => none
+
 def handlers : List (String × Handler) :=
+  [("gen_complete_big", hCompleteBig)] ++
   (["empty", "complete", "circuit", "cycle", "path", "star", "wheel"].map (fun nm => ("gen_" ++ nm, h1 nm))) ++
   [("gen_biclique", hBiclique)] ++
   (["trivial", "claw", "utility"].map (fun nm => ("gen_" ++ nm, h0 nm)))
